@@ -106,6 +106,9 @@ pub struct EpMon {
     /// frames E encoded, GOAWAY excluded
     pub frames_out_other: u64,
     pub own_sent: VecDeque<Vec<(u16, u32)>>,
+    /// indices (into Monitor::violations) of "RST_STREAM on idle stream" reports since the
+    /// last frame E emitted that was not a RST_STREAM
+    pub idle_rst_reports: Vec<usize>,
     /// C18: CONTINUATION frames of one header block E may process before it has to give up
     /// (None = not asserted); frames processed in the current block
     pub max_continuations_allowed: Option<usize>,
@@ -163,6 +166,7 @@ impl EpMon {
             pings_in_mark: VecDeque::new(),
             frames_out_other: 0,
             own_sent: VecDeque::new(),
+            idle_rst_reports: Vec::new(),
             max_continuations_allowed: None,
             in_block_continuations: 0,
             last_solicited_ack_in: 0,
@@ -519,6 +523,9 @@ impl Monitor {
         if f.ty != GOAWAY {
             self.ep[side].frames_out_other += 1;
         }
+        if f.ty != GOAWAY && f.ty != RST_STREAM {
+            self.ep[side].idle_rst_reports.clear();
+        }
         // ---- C12: frame size limit acknowledged by E
         let mfs = self.ep[side].peer_acked.mfs as usize;
         for g in group {
@@ -673,6 +680,20 @@ impl Monitor {
             if c != 0 && e.goaway_time.is_none() {
                 e.goaway_time = Some(now);
             }
+            if c != 0 {
+                // history discriminator (same defect as after a received GOAWAY): the queued
+                // HEADERS were discarded by E's own connection error, whose GOAWAY follows
+                let idxs = std::mem::take(&mut e.idle_rst_reports);
+                for i in idxs {
+                    if let Some(v) = self.violations.get_mut(i) {
+                        if v.oracle == "frame-on-idle-stream" && v.disc == "RST_STREAM" {
+                            v.disc = "RST_STREAM:stream-discarded-by-own-connection-error".into();
+                            v.msg.push_str(" (its queued HEADERS were discarded by the endpoint's own connection error; the error GOAWAY follows)");
+                        }
+                    }
+                }
+            }
+            let e = &mut self.ep[side];
             // C14: the frame E had just processed is the acknowledgement of a SETTINGS frame
             // E really sent; failing the connection over it treats it as answering nothing
             // (same poll: an application calling abrupt_shutdown(PROTOCOL_ERROR) later is not it)
@@ -1039,6 +1060,10 @@ impl Monitor {
                 if after_goaway { "RST_STREAM:stream-excluded-by-received-goaway" } else { "RST_STREAM" },
                 format!("{} emitted RST_STREAM on idle stream {}{}", who, sid, if after_goaway { " (its queued HEADERS were discarded when a GOAWAY with a lower last-stream-id arrived)" } else { "" }),
             );
+            if !after_goaway {
+                let idx = self.violations.len() - 1;
+                self.ep[side].idle_rst_reports.push(idx);
+            }
             return;
         }
         let code = f.u32_at(0).unwrap();
